@@ -138,7 +138,7 @@ impl Symbols {
 }
 
 /// Escape the bytes in some negative ASCII stringlike context.  The escape value is not inverted.
-/// `bytes` are the bytes to escape, literal hex escapes will hex-escape the backslash (`\x5c`)
+/// `bytes` are the bytes to escape, literal hex escapes will hex-escape the backslash (`\xdc`)
 /// `offset` is the index to start of context, one past the triggering byte
 /// `terminator` are characters that close the context
 /// Returns escaped string and index to terminator, terminator not included in string
@@ -153,15 +153,15 @@ pub fn bytes_to_escaped_string_ex(bytes: &[u8], offset: usize, escapes: &[i64], 
         }
 		if bytes[idx] == BACKSLASH && idx + 3 < bytes.len() {
             let is_hex = |x_neg: u8| -> bool {
-                let x = x_neg - 128;
+                let x = x_neg.wrapping_sub(128);
                 x>=48 && x<=57 || x>=65 && x<=70 || x>=97 && x<=102
             };
             if bytes[idx+1]==128+120 && is_hex(bytes[idx+2]) && is_hex(bytes[idx+3]) {
-                ans += "\\x5c";
+                ans += "\\xdc";
             } else {
                 ans += "\\";
             }
-        } else if escapes.contains(&(bytes[idx] as i64)) || bytes[idx] > 254 || bytes[idx] < 128 {
+        } else if escapes.contains(&(bytes[idx] as i64)) || bytes[idx] > 254 || bytes[idx] < 128 || (bytes[idx]-128).is_ascii_lowercase() {
             let mut temp = String::new();
             write!(&mut temp,"\\x{:02x}",bytes[idx]).expect("unreachable");
             ans += &temp;
